@@ -145,4 +145,26 @@ example : DkimVerifier.relaxedBody (str " \r\n\r\n") = [] := by decide
 example : DkimVerifier.simpleBody (str "") = CRLF := by decide
 example : DkimVerifier.simpleBody (str "x\r\n\r\n\r\n") = str "x\r\n" := by decide
 
+/-! ### the recorded finding for `simple`, exhibited by the model -/
+
+def wcfg : Cfg := ⟨str "ed25519", str "s", str "d.io", [str "From"], .simple, .simple⟩
+def wbh : Bytes := List.replicate 43 65 ++ [61]
+def wsig : Bytes := List.replicate 86 65 ++ [61, 61]
+
+/-- finding `simple-header-canon-signature-field-refolded`, in the model: with `simple` header canonicalization the
+    field the signer hashes (`… bh=…; b=` on one line) and the field a verifier reconstructs from the emitted one
+    (folded before `b=<signature>`, value of `b=` deleted) differ -/
+theorem simple_sig_field_witness :
+    trimEnd (canonHeaders opts .simple [sigName] [HV.new (tag .simple sigName) (headerValue wcfg 0 wbh [])]) ≠
+      (DkimVerifier.simpleField (DkimVerifier.deleteB (fld (HV.new sigName (headerValue wcfg 0 wbh wsig))))).take
+        ((DkimVerifier.simpleField (DkimVerifier.deleteB (fld (HV.new sigName (headerValue wcfg 0 wbh wsig))))).length - 2) := by
+  decide +kernel
+
+/-- …whereas a signature short enough not to move the fold is reconstructed exactly (the difference above is the fold) -/
+theorem simple_sig_field_short_agrees :
+    trimEnd (canonHeaders opts .simple [sigName] [HV.new (tag .simple sigName) (headerValue wcfg 0 [65, 65, 65, 61] [])]) =
+      (DkimVerifier.simpleField (DkimVerifier.deleteB (fld (HV.new sigName (headerValue wcfg 0 [65, 65, 65, 61] [65, 65, 61, 61]))))).take
+        ((DkimVerifier.simpleField (DkimVerifier.deleteB (fld (HV.new sigName (headerValue wcfg 0 [65, 65, 65, 61] [65, 65, 61, 61]))))).length - 2) := by
+  decide +kernel
+
 end LV.C13
